@@ -504,6 +504,7 @@ def check_population(ctx: Ctx, meta: Meta, pi, payload, d, res, hcases, qcases, 
                 ctx.nontrivial({"p": pi, "h": hname, "g": names, "n": len(want)})
             ctx.hist("group_size", len(names))
             ctx.hist("result_size", min(len(want), 20) // 5 * 5)
+            ctx.hist("query_rows", "empty" if not want else "nonempty")
             if two:
                 ctx.hist("spatial_query", "nonempty" if want else "empty")
             # model case on the `new` interface
